@@ -127,10 +127,10 @@ pub fn run(ctx: &mut Ctx) {
         extras: true,
         all_widths: true,
     };
-    ctx.meta("rule", "cases: (tree, per-tag write options, presentation); trees = forests over V (macro-derived) up to the node bound + deep spines + size-boundary documents (payload / content 124..128, 16379..16384 bytes; thorough adds 2^21-1, 2^21) + raw tags with well-formed unknown ids of 1, 2 and 8 bytes, documents longer than the reader's 64 KiB buffer with 9..16-byte headers at every alignment around the buffer boundary, and forests over a runtime specification whose masters nest 8 deep with ids of every byte length 1..8; options = every known/unknown choice x deviations among size width 1..8 and payload classes (0, boundary integers, NaN patterns, empty/127/128-byte strings and binaries); presentations = Start/End and every Full antichain. The real TagWriter is driven; if every call is accepted the output is read by the real strict TagIterator. For the forests of <= 4 elements additionally with one call that the writer rejects put in at every position (127-byte string / binary / raw tag with a 1-byte size field, End of a master that is not open): the accepted calls are the document. Oracle: items == flatten(tree) exactly, no error, then None. Excluded (inherent EBML ambiguity, as in C07): a global element directly after an unknown-size master. Non-trivial: documents with a master and a non-default option or Full presentation.");
+    ctx.meta("rule", "cases: (tree, per-tag write options, presentation); trees = forests over V (macro-derived) up to the node bound + deep spines + Root[leaf] for every payload class x every explicit size width + size-boundary documents (payload / content 124..128, 16379..16384 bytes; thorough adds 2^21-1, 2^21) + raw tags with well-formed unknown ids of 1, 2 and 8 bytes, documents longer than the reader's 64 KiB buffer with 9..16-byte headers at every alignment around the buffer boundary, and forests over a runtime specification whose masters nest 8 deep with ids of every byte length 1..8; options = every known/unknown choice x deviations among size width 1..8 and payload classes (0, boundary integers, NaN patterns, empty/127/128-byte strings and binaries); presentations = Start/End and every Full antichain. The real TagWriter is driven; if every call is accepted the output is read by the real strict TagIterator. For the forests of <= 4 elements additionally with one call that the writer rejects put in at every position (127-byte string / binary / raw tag with a 1-byte size field, End of a master that is not open): the accepted calls are the document. Oracle: items == flatten(tree) exactly, no error, then None. Excluded (inherent EBML ambiguity, as in C07): a global element directly after an unknown-size master. Non-trivial: documents with a master and a non-default option or Full presentation.");
     ctx.meta("bounds", &format!("forests <= {} elements over V, <= {} deviation (thorough: additionally <= 2 deviations on forests <= 5 elements); chain specification forests <= {} elements + the full 8-deep spine x 256 unknown-size subsets", p.max_nodes, p.devs, ctx.tier.pick(6, 7)));
     ctx.meta("assumptions", "payload lengths 2^(7k)-1 for k >= 4 are covered only at codec level (C15) || calls the writer rejects are not judged here (C09/C11 demand acceptance)");
-    for c in ["accepted_by_writer", "chain_spec_docs", "size_boundary_docs", "buffer_boundary_docs", "round_trips_with_a_rejected_call_in_between", "read_back_with_capacity_16"] {
+    for c in ["accepted_by_writer", "chain_spec_docs", "size_boundary_docs", "buffer_boundary_docs", "round_trips_with_a_rejected_call_in_between", "read_back_with_capacity_16", "payload_class_x_width_docs"] {
         ctx.expect_nonzero(c);
     }
     docs::for_each_doc(ctx, &rs, &p, &mut |ctx, doc| {
@@ -167,6 +167,14 @@ pub fn run(ctx: &mut Ctx) {
                 ch[0].size = SizeEnc::Width(w);
             }
             check_doc::<V>(ctx, &rs, &d1, false);
+        }
+    }
+    // every payload class of every data type under every explicit size-field width (one deviation in the main sweep
+    // is a payload class OR a width)
+    for (i, doc) in docs::payload_width_docs().into_iter().enumerate() {
+        if ctx.mine(i as u64) {
+            ctx.count("payload_class_x_width_docs", 1);
+            check_doc::<V>(ctx, &rs, &doc, false);
         }
     }
     // documents longer than the reader's 64 KiB buffer: elements with 9..16-byte headers at every alignment
